@@ -36,6 +36,10 @@ structure Cfg where
   wspJoinChecks : Bool
   /-- wsp/session.go: DESCRIBE / PLAY re-validate the pull right of the session's user -/
   wspPlayChecks : Bool
+  /-- apis.go `authInterceptor`: the verified user name REPLACES (`r.Header.Set`) whatever value of the
+      internal `user_name_in_token` header the client sent itself (anything else, e.g. `Header.Add`,
+      leaves the client's value in front of the verified one) -/
+  identityReplaces : Bool
   /-- token.go: life times in seconds -/
   accessTTL : Int
   refreshTTL : Int
@@ -440,5 +444,63 @@ def apiRefresh (cfg : Cfg) (w : World) (tok : TokRef) : World × Option Tok :=
   | some t =>
     let (tt, n, r) := refreshToken cfg w.toks w.next t w.now
     ({ w with toks := tt, next := n }, r)
+
+/-! ## the internal identity header
+
+`authInterceptor` hands the verified user name to the later interceptors and to the WebSocket
+upgrade in the request header `user_name_in_token`.  A client may send a header of that name
+itself (net/http canonicalises every spelling of the key to the same map key): `hdr` below is the
+list of values the CLIENT sent under that key, in order.  `r.Header.Get` returns the first value
+of the key. -/
+
+/-- what `r.Header.Get(usernameHeaderKey)` yields after `authInterceptor` accepted `name` -/
+def identitySeen (cfg : Cfg) (hdr : List (List Char)) (name : List Char) : List Char :=
+  if cfg.identityReplaces then name
+  else match hdr with
+    | [] => name
+    | h :: _ => h
+
+/-- streamInterceptor, with the client's own values of the identity header -/
+def streamInterceptorH (cfg : Cfg) (w : World) (path : List Char) (tok : TokRef) (hdr : List (List Char)) : World × Gate :=
+  if pathBase path = "crossdomain.xml".toList then (w, .crossdomain)
+  else if !w.authOn then (w, .pass none)
+  else
+    match authInterceptor w tok with
+    | (w', none) => (w', .unauthorized)
+    | (w', some name) =>
+      let seen := identitySeen cfg hdr name
+      match permissionInterceptor cfg w' seen path with
+      | none => (w', .panic)
+      | some false => (w', .forbidden)
+      | some true => (w', .pass (some seen))
+
+/-- one plain HTTP request on /streams/, with the client's own values of the identity header -/
+def httpStreamH (cfg : Cfg) (w : World) (m : HMethod) (path : List Char) (tok : TokRef) (hdr : List (List Char)) : World × HttpOut :=
+  if muxRedirects m path then (w, .redirect)
+  else
+    match streamInterceptorH cfg w path tok hdr with
+    | (w', .crossdomain) => (w', .crossdomain)
+    | (w', .unauthorized) => (w', .unauthorized)
+    | (w', .forbidden) => (w', .forbidden)
+    | (w', .panic) => (w', .panic)
+    | (w', .pass _) => (w', streamsDispatch cfg w' path)
+
+/-- the `/api/` handler up to `api.ServeHTTP`, with the client's own values of the identity header -/
+def apiGateH (cfg : Cfg) (w : World) (m : HMethod) (isGet : Bool) (path : List Char) (tok : TokRef) (hdr : List (List Char)) : World × ApiOut :=
+  if muxRedirects m path then (w, .redirect)
+  else if pathBase path = "crossdomain.xml".toList then (w, .crossdomain)
+  else if cfg.noAuth.contains (lowerStr cfg path) then (w, .open_)
+  else
+    match authInterceptor w tok with
+    | (w', none) => (w', .unauthorized)
+    | (w', some name) =>
+      let seen := identitySeen cfg hdr name
+      if roleInterceptor cfg w' isGet path seen then (w', .pass seen) else (w', .forbidden)
+
+theorem identitySeen_replaces (cfg : Cfg) (h : cfg.identityReplaces = true) (hdr : List (List Char)) (name : List Char) :
+    identitySeen cfg hdr name = name := by simp [identitySeen, h]
+
+theorem identitySeen_nil (cfg : Cfg) (name : List Char) : identitySeen cfg [] name = name := by
+  simp [identitySeen]
 
 end IpcHub.Auth
